@@ -69,7 +69,7 @@ def gen_potential(rng, n, stream):
         elif stream == 'zeros':
             vals.append(Fraction(0) if rng.random() < 0.4 else Fraction(rng.randint(1, 9), rng.randint(1, 5)))
         elif stream == 'huge':
-            vals.append(Fraction(rng.randint(1, 9)) * Fraction(2) ** rng.choice([-3000, -1500, 0, 1500, 3000]))
+            vals.append(Fraction(rng.randint(1, 9)) * Fraction(2) ** rng.choice([-1200, -600, 0, 600, 1200]))
         elif stream == 'unit':
             vals.append(Fraction(1))
     return vals
